@@ -252,6 +252,10 @@ def check(run, F, tier):
                     cnt += 1
                     if not seen_refresh:
                         bad = p
+            # a packet accepted without delivery (QoS 2 duplicate answered with PUBREC) is accepted traffic too
+            if not conn.errors(p) and not seen_refresh and conn.calls(p, "::parse") and \
+                    all(conn.possible(F, p, e[4][1], "std::result::Result") == {"Ok"} for _, e in conn.calls(p, "::parse") if e[4][0] == "sym"):
+                bad = p
         if cnt == 0:
             r5.violation(f["name"], "%s has no delivering path" % f["name"])
         elif bad:
